@@ -100,31 +100,42 @@ def run(ck, fx, cg, tier):
         ck.ob("R4.source", "the bytecode deserializer hands the reader untouched to Program::from_bytes", okd is True, whered, whyd)
 
 
+def frame_writer(fx):
+    """(best successful path, shape, problems) of Program::serialize — Program := u16 n Constant×n  u16 g u16×g  u16 entry,
+    every constant written by its own serializer as it stands in the pool"""
+    self_t = ("var", "self")
+    ex, paths = lrun(fx, A.get("program.serialize"), [self_t, ("var", "sink")])
+    oks = [p for p in paths or [] if p["out"][0] == "val" and p["out"][1][0] in ("ok", "fall")]
+    # the path where every write succeeded is the one ending in the entry write
+    best = max(oks, key=lambda p: len(p["eff"])) if oks else None
+    probs = []
+    shape = None
+    if best is None:
+        probs.append("no successful path")
+    else:
+        items = L.w_items(best["eff"])
+        fields, _ = L.parse_writer(items, None, {"constant_pool": L_field("constant_pool"), "globals": L_field("globals"), "entry": L_field("entry")})
+        shape = [(f[0], f[1]) for f in fields]
+        want = [("counted:u16le:sub:constant", "constant_pool"), ("counted:u16le:u16le", "globals"), ("u16le", "entry")]
+        if shape != want:
+            probs.append("program frame is %s, S3 says %s" % (shape, want))
+        for f in fields:
+            if f[0].startswith("counted") and not (f[2].get("count_matches_sequence") and f[2].get("forward")):
+                probs.append("count/sequence mismatch or reverse order in `%s`" % f[1])
+    return best, shape, probs
+
+
 def _frame(ck, fx):
     """Program := u16 n Constant×n  u16 g u16×g  u16 entry"""
-    self_t = ("var", "self")
     try:
-        ex, paths = lrun(fx, A.get("program.serialize"), [self_t, ("var", "sink")])
+        best, shape, probs = frame_writer(fx)
+        paths = True
     except Exception as e:
         ck.ob("R4.writer", "program frame", False, "", "cannot extract: %s" % e)
         paths = None
+        best = None
     if paths:
-        oks = [p for p in paths if p["out"][0] == "val" and p["out"][1][0] in ("ok", "fall")]
-        # the path where every write succeeded is the one ending in the entry write
-        best = max(oks, key=lambda p: len(p["eff"])) if oks else None
-        probs = []
-        if best is None:
-            probs.append("no successful path")
-        else:
-            items = L.w_items(best["eff"])
-            fields, _ = L.parse_writer(items, None, {"constant_pool": L_field("constant_pool"), "globals": L_field("globals"), "entry": L_field("entry")})
-            shape = [(f[0], f[1]) for f in fields]
-            want = [("counted:u16le:sub:constant", "constant_pool"), ("counted:u16le:u16le", "globals"), ("u16le", "entry")]
-            if shape != want:
-                probs.append("program frame is %s, S3 says %s" % (shape, want))
-            for f in fields:
-                if f[0].startswith("counted") and not (f[2].get("count_matches_sequence") and f[2].get("forward")):
-                    probs.append("count/sequence mismatch or reverse order in `%s`" % f[1])
+        if shape is not None:
             ck.sample({"rule": "R4.writer", "program_frame": shape})
         ck.ob("R4.writer", "program frame", not probs, "", "u16 n, Constant×n, u16 g, u16×g, u16 entry" if not probs else "; ".join(probs))
         if best is not None:
